@@ -121,8 +121,27 @@ fn one_run(rng: &mut StdRng, k: usize) -> Result<Vec<J>, String> {
     let log: Log = Arc::new(Mutex::new(Vec::new()));
     rt.add_io_driver("zq".to_string(), Box::new(Drv { log: log.clone() }));
     let disk = Arc::new(Mutex::new(None));
+    // a third of the runs start on a store that already holds a snapshot -- written by an EARLIER VERSION of the
+    // program, which had two RETAIN variables more (a global, stored first, and a program variable in the middle):
+    // the start-up sequence of bin/trust-runtime/run.rs (restart, then load_retain_store) must bring back the two
+    // counters that still exist
+    let (mut boot_gr, mut boot_pr) = (-1i64, -1i64);
     if with_store {
+        if k % 3 == 1 {
+            boot_gr = rng.gen_range(3..900);
+            boot_pr = rng.gen_range(3..900);
+            let mut snap = RetainSnapshot::default();
+            snap.insert("zq_gone", Value::Int(5));
+            snap.insert("gr", Value::Int(boot_gr as i16));
+            snap.insert("I1.zq_gone2", Value::Int(6));
+            snap.insert("I1.pr", Value::Int(boot_pr as i16));
+            *disk.lock().unwrap() = Some(snap);
+        }
         rt.set_retain_store(Some(Box::new(Store { log: log.clone(), disk: disk.clone() })), interval.map(Duration::from_millis));
+        if boot_gr >= 0 {
+            rt.restart(RestartMode::Cold).map_err(|e| e.to_string())?;
+            rt.load_retain_store().map_err(|e| e.to_string())?;
+        }
     }
     let clock = ManualClock::new();
     let signal = Arc::new(Mutex::new(None::<RestartMode>));
@@ -177,7 +196,7 @@ fn one_run(rng: &mut StdRng, k: usize) -> Result<Vec<J>, String> {
             break;
         }
     }
-    let mut evs = vec![json!({"a": "Reset", "k": k, "store": with_store, "interval": interval.unwrap_or(-1), "runner": if shared_runner { "shared" } else { "plain" }})];
+    let mut evs = vec![json!({"a": "Reset", "k": k, "store": with_store, "interval": interval.unwrap_or(-1), "bootGr": boot_gr, "bootPr": boot_pr, "runner": if shared_runner { "shared" } else { "plain" }})];
     evs.extend(log.lock().unwrap().drain(..));
     evs.push(json!({"a": "End", "joined": joined, "faulted": faulted}));
     Ok(evs)
